@@ -85,7 +85,10 @@ RULE = ("exhaustive small scope in fixed order: n in 1..12 x window_length 1..4 
         "overlapping data], each with and without refit -> predict; y/X dtypes float64/float32/int64/int32; horizon given at fit and/or predict, "
         "NaN/inf/duplicate values, np.int64 window); malformed stream (bad window, bad / "
         "in-sample / duplicate / empty / missing horizon, different horizon at predict, empty and too-short series around the bound, dirrec with X, "
-        "missing / broadcastable / mis-shaped future X, refit without horizon); every public construction path (make_reduction, the eight strategy "
+        "missing / broadcastable / mis-shaped future X, refit without horizon); horizons with two- and three-digit steps (1..12, [2,10], [3,11,25], "
+        "[1,10,100], random subsets of 1..26) for every strategy/scitype; value magnitudes (level 1e3..1e9 with increments of 0/1, constant and "
+        "near-constant series, the same scaled by an exact power of two down to ~1e-8) with a second recording regressor whose output stays next "
+        "to its input; every public construction path (make_reduction, the eight strategy "
         "classes with step_length 1..5, the deprecated ReducedForecaster / ReducedRegressionForecaster) on all of the above; histories (op=hist) in "
         "which operations are refused or fail and are FOLLOWED by further operations: update_predict with X / too short or empty data / without a "
         "horizon / with a recording regressor that raises on its k-th predict call in the middle of the moving-cutoff loop, predict with a refused, "
@@ -116,6 +119,7 @@ P = 2147483647
 _LOGS = {}          # log id -> list of records
 _FAIL = {}          # log id -> [k, attempts]: the regressor raises on its (k+1)-th predict call (once)
 _NEXT = [0]
+_SC = [1.0]         # power-of-two factor applied to every value handed to sktime (exact), removed again when observations are printed
 
 
 def _new_log():
@@ -125,7 +129,7 @@ def _new_log():
 
 
 def _enc(v):
-    v = float(v)
+    v = float(v) / _SC[0]
     if v != v:
         return 999983
     if v == float("inf"):
@@ -190,10 +194,18 @@ class _RecMixin:
                 raise RuntimeError("recording regressor: scheduled failure")     # not recorded
         Xc = np.array(X, dtype=float, copy=True)
         insts = _insts(Xc)
-        if self.k_ is None:
-            out = np.array([float(_hi(self.sig_, inst)) + 0.5 for inst in insts])
+        sc = _SC[0]
+        if getattr(self, "mode", "hash") == "drift":
+            # stays next to the data it is fed: last entry of the instance + 1/2 (+ j for output j)
+            lastv = [float(np.asarray(Xc[i]).ravel()[-1]) for i in range(len(insts))]
+            if self.k_ is None:
+                out = np.array([v + 0.5 * sc for v in lastv])
+            else:
+                out = np.array([[v + (0.5 + j) * sc for j in range(self.k_)] for v in lastv])
+        elif self.k_ is None:
+            out = np.array([(float(_hi(self.sig_, inst)) + 0.5) * sc for inst in insts])
         else:
-            out = np.array([[float(_hi((self.sig_ + 1 + j) % P, inst)) + 0.5 for j in range(self.k_)] for inst in insts])
+            out = np.array([[(float(_hi((self.sig_ + 1 + j) % P, inst)) + 0.5) * sc for j in range(self.k_)] for inst in insts])
         log.append(("predict", self.fit_id_, Xc, out.copy()))
         return out
 
@@ -203,8 +215,9 @@ def _make_classes():
     from sktime.regression.base import BaseRegressor
 
     class RecTab(_RecMixin, RegressorMixin, BaseEstimator):
-        def __init__(self, log_id=0):
+        def __init__(self, log_id=0, mode="hash"):
             self.log_id = log_id
+            self.mode = mode
 
         def fit(self, X, y):
             return self._rec_fit(X, y)
@@ -213,8 +226,9 @@ def _make_classes():
             return self._rec_predict(X)
 
     class RecTS(_RecMixin, BaseRegressor):
-        def __init__(self, log_id=0):
+        def __init__(self, log_id=0, mode="hash"):
             self.log_id = log_id
+            self.mode = mode
             super().__init__()
 
         def fit(self, X, y):
@@ -225,8 +239,9 @@ def _make_classes():
             return self._rec_predict(X)
 
     class RecTSMix(_RecMixin, BaseRegressor, RegressorMixin):
-        def __init__(self, log_id=0):
+        def __init__(self, log_id=0, mode="hash"):
             self.log_id = log_id
+            self.mode = mode
             super().__init__()
 
         def fit(self, X, y):
@@ -277,7 +292,7 @@ def _srows(rows):
 
 def _sX(X):
     """tagged text of a recorded X array"""
-    X = np.asarray(X)
+    X = np.asarray(X) / _SC[0]
     if X.ndim == 2:
         return "2d:" + ("-" if X.shape[0] == 0 else ";".join(_svals(r) for r in X))
     if X.ndim == 3:
@@ -287,7 +302,7 @@ def _sX(X):
 
 
 def _sy(y):
-    y = np.asarray(y)
+    y = np.asarray(y) / _SC[0]
     if y.ndim == 1:
         return "v:" + _svals(y)
     if y.ndim == 2:
@@ -298,11 +313,11 @@ def _sy(y):
 def _scall(r):
     if r[0] == "fit":
         return "F:%s:%s" % (_sX(r[1]), _sy(r[2]))
-    return "P%d:%s>%s" % (r[1], _sX(r[2]), _svals(np.asarray(r[3]).ravel()))
+    return "P%d:%s>%s" % (r[1], _sX(r[2]), _svals(np.asarray(r[3]).ravel() / _SC[0]))
 
 
 def _fv(v):
-    return {"nan": float("nan"), "inf": float("inf"), "-inf": float("-inf")}[v] if isinstance(v, str) else float(v)
+    return {"nan": float("nan"), "inf": float("inf"), "-inf": float("-inf")}[v] if isinstance(v, str) else float(v) * _SC[0]
 
 
 YLAYOUTS = ["contig", "stride2", "dfcol", "revrev"]
@@ -437,11 +452,11 @@ def to_line(c):
             else:
                 ops.append("P@%s@%s" % (_fh_tok(o["fh"]), _rows_tok(o["Xp"])))
         via = c.get("via", "make")
-        return "C05 hist %s %d %s %s %s %s %d %s %s %s %s" % (
-            via, c.get("step", 1), c["strategy"], _sci_expected(c), _wl_tok(c["wl"]), _fh_tok(c["fh"]), c["t0"],
+        return "C05 hist %s %s %d %s %s %s %s %d %s %s %s %s" % (
+            c.get("mode", "hash"), via, c.get("step", 1), c["strategy"], _sci_expected(c), _wl_tok(c["wl"]), _fh_tok(c["fh"]), c["t0"],
             _svals(c["y"]), _rows_tok(c["X"]), "none" if c.get("fail") is None else str(c["fail"]), " ".join(ops))
-    return "C05 run %s %s %s %s %s %d %s %s %s %d %s %s %s" % (
-        c["strategy"], _sci_expected(c), _wl_tok(c["wl"]), _fh_tok(c["fh"]), _fh_tok(c["fhp"]), c["t0"],
+    return "C05 run %s %s %s %s %s %s %d %s %s %s %d %s %s %s" % (
+        c.get("mode", "hash"), c["strategy"], _sci_expected(c), _wl_tok(c["wl"]), _fh_tok(c["fh"]), _fh_tok(c["fhp"]), c["t0"],
         _svals(c["y"]), _rows_tok(c["X"]), c["upd"], _u0(c), _svals(c["uy"]), _rows_tok(c["uX"]), _rows_tok(c["Xp"]))
 
 
@@ -475,11 +490,19 @@ def _construct(c, reg):
 
 
 def _sfc(yp):
-    return "-" if len(yp) == 0 else ",".join("%d:%s" % (int(l), _sv(v)) for l, v in zip(yp.index, yp.values))
+    return "-" if len(yp) == 0 else ",".join("%d:%s" % (int(l), _sv(v / _SC[0])) for l, v in zip(yp.index, yp.values))
 
 
 def run_real(c):
     _layout_selftest()
+    _SC[0] = 2.0 ** (-c.get("scale2", 0))
+    try:
+        return _run_real(c)
+    finally:
+        _SC[0] = 1.0
+
+
+def _run_real(c):
     if c["op"] == "swt":
         return _run_swt(c)
     lid = _new_log()
@@ -489,7 +512,7 @@ def run_real(c):
     ncx = len(c["X"][0]) if c["X"] else None
     stage = "fit"
     try:
-        reg = _classes()[c["reg"]](log_id=lid)
+        reg = _classes()[c["reg"]](log_id=lid, mode=c.get("mode", "hash"))
         n = len(c["y"])
         y = _series(c["y"], c["t0"], dt, lay)
         X = _frame(c["X"], c["t0"], dtype=xdt, layout=xlay)
@@ -544,7 +567,7 @@ def _run_swt(c):
         X = _frame(c["X"], 0, dtype=c.get("xdtype", "float64"), layout=c.get("xlayout", "contig"))
         fh = ForecastingHorizon(list(c["fh"]), is_relative=True)
         yt, Xt = _sliding_window_transform(y, _wl_value(c["wl"]), fh, X, scitype=_SCI_NAME[c["sci"]])
-        return "yt=%s Xt=%s" % (_srows(np.asarray(yt)), _sX(Xt))
+        return "yt=%s Xt=%s" % (_srows(np.asarray(yt) / _SC[0]), _sX(Xt))
     except Exception as e:
         return canon_err(e)
 
@@ -1332,6 +1355,54 @@ def _hist_case(rng, strategy=None, script=None):
             "layout": rng.choice(YLAYOUTS + ["contig"]), "xlayout": rng.choice(XLAYOUTS + ["contig"])}
 
 
+BIG_FHS = [list(range(1, 13)), [2, 10], [3, 11, 25], [9, 10], [2, 11], [1, 10, 100]]
+
+
+def _revalue(c, rng, level=None, kind=None, mode=None, scale2=None):
+    """give a built case values at a high level with tiny (or no) increments, optionally scaled by an exact power
+    of two down to ~1e-8, and (mostly) the regressor that stays next to the data it is fed"""
+    level = level if level is not None else rng.choice([1000, 10 ** 4, 10 ** 5, 10 ** 6, 10 ** 6, 10 ** 9])
+    kind = kind or rng.choice(["const", "near", "ramp", "ramp"])
+    c["mode"] = mode or rng.choice(["drift", "drift", "drift", "hash"])
+    c["scale2"] = scale2 if scale2 is not None else rng.choice([0, 0, 0, 40, 47])
+    if c["scale2"] or level > 10 ** 6:
+        c["dtype"] = rng.choice(["float64", "float64", "int64"]) if not c["scale2"] else "float64"
+        c["xdtype"] = "float64"
+    cur = [level]
+
+    def series(k):
+        out = []
+        for _ in range(k):
+            out.append(cur[0])
+            if kind == "ramp":
+                cur[0] += 1
+            elif kind == "near":
+                cur[0] += rng.choice([0, 0, 1])
+        return out
+
+    def keep(old, new):
+        return [o if isinstance(o, str) else v for o, v in zip(old, new)]       # keep nan/inf tokens where they were
+
+    c["y"] = keep(c["y"], series(len(c["y"])))
+    if c["X"] is not None:
+        c["X"] = [[level + v for v in r] for r in c["X"]]
+    if c["op"] == "hist":
+        for o in c["ops"]:
+            if o["k"] in ("U", "W"):
+                o["uy"] = keep(o["uy"], series(len(o["uy"])))
+                if o["k"] == "U" and o["uX"] is not None:
+                    o["uX"] = [[level + v for v in r] for r in o["uX"]]
+            elif o["Xp"] is not None:
+                o["Xp"] = [[level + v for v in r] for r in o["Xp"]]
+    else:
+        c["uy"] = keep(c["uy"], series(len(c["uy"])))
+        if c["uX"] is not None:
+            c["uX"] = [[level + v for v in r] for r in c["uX"]]
+        if c["Xp"] is not None:
+            c["Xp"] = [[level + v for v in r] for r in c["Xp"]]
+    return c
+
+
 FH_SUBSETS = [list(s) for r in range(1, 5) for s in itertools.combinations([1, 2, 3, 4], r)]
 
 
@@ -1381,6 +1452,10 @@ def gen_cases(tier, rng):
         fh = sorted(rng.sample(range(1, 9), hsz))
         if rng.random() < 0.3:
             fh = list(range(1, hsz + 1))
+        if rng.random() < 0.2:
+            fh = sorted(rng.sample(range(1, 27), rng.choice([2, 3, 4])))       # two-digit steps
+            if rng.random() < 0.3:
+                fh = list(range(1, rng.choice([10, 11, 12, 13]) + 1))
         rng.shuffle(fh) if rng.random() < 0.3 else None
         hmax = max(fh)
         need = wl + (1 if strategy == "recursive" else hmax)
@@ -1451,6 +1526,42 @@ def gen_cases(tier, rng):
         nc = rng.choice([0, 1, 3])
         cases.append({"op": "swt", "sci": rng.choice(["tab", "ts"]), "wl": wl, "fh": fh, "y": _vals(rng, max(n, 1)), "X": _mkX(rng, max(n, 1), nc, 1000),
                       "layout": rng.choice(YLAYOUTS), "xlayout": rng.choice(XLAYOUTS)})
+    # ---- (2a) horizons reaching two- and three-digit steps, every strategy / scitype, fixed order
+    for fh in BIG_FHS:
+        for strategy in STRATEGIES:
+            for sci in ("tab", "ts"):
+                for wl in (1, 3):
+                    hmx = max(fh)
+                    if hmx > 30 and (quick or strategy == "recursive") and wl == 3:
+                        continue
+                    for extra in (0, 3):
+                        n = wl + (1 if strategy == "recursive" else hmx) + extra
+                        cases.append(_run_case(rng, strategy, n, wl, list(fh), nc=(0 if strategy == "dirrec" or extra else 1),
+                                               reg=("tab" if sci == "tab" else "ts"), scitype=sci, fhp=("same" if extra else None),
+                                               via=VIAS[(wl + extra) % 4]))
+    # ---- (2a') value magnitudes: high level with tiny / no increments, values ~1e-8 (exact power-of-two scale),
+    #      constant and near-constant series; mostly with the regressor that stays next to the data it is fed
+    for strategy in STRATEGIES:
+        for kind in ("const", "near", "ramp"):
+            for level, sc2 in ((1000, 0), (10 ** 6, 0), (10 ** 9, 0), (10 ** 4, 40), (1000, 47)):
+                for mode in ("drift", "hash"):
+                    if quick and mode == "hash" and kind != "ramp":
+                        continue
+                    wl = rng.choice([1, 2, 3])
+                    fh = sorted(rng.sample(range(1, 7), rng.choice([2, 3])))
+                    n = wl + max(fh) + rng.choice([0, 2, 6])
+                    cases.append(_revalue(_run_case(rng, strategy, n, wl, fh, reg=rng.choice(["tab", "ts"])), rng, level, kind, mode, sc2))
+    for _ in range(300 if quick else 4000):
+        strategy = rng.choice(STRATEGIES)
+        wl = rng.choice([1, 1, 2, 3, 5])
+        fh = sorted(rng.sample(range(1, 9), rng.choice([1, 2, 3, 4])))
+        n = wl + max(fh) + rng.choice([0, 1, 3, 8, 20])
+        upd = rng.choice(["no", "no", "upd", "up"])
+        nc = 0 if (strategy == "dirrec" or upd == "up") else rng.choice([0, 0, 1])
+        ulen = 0 if upd == "no" else (rng.choice([1, 2, 3]) if upd == "upd" else wl + max(fh) + rng.choice([0, 2]))
+        cases.append(_revalue(_run_case(rng, strategy, n, wl, fh, nc=nc, upd=upd, ulen=ulen, reg=rng.choice(["tab", "ts", "tsmix"]),
+                                        fhp=rng.choice(["same", None]), via=rng.choice(VIAS),
+                                        dtype=rng.choice(DTYPES), layout=rng.choice(YLAYOUTS)), rng))
     # ---- (2b) histories with refused / failing operations followed by further operations, all construction paths
     for strategy in STRATEGIES:
         for script in (["Wx"], ["Wshort"], ["Wempty"], ["W"], ["Pbad"], ["Pnew"], ["Ubad"], ["Wx", "U"], ["W", "Wx"], ["Pbad", "W"]):
@@ -1461,7 +1572,10 @@ def gen_cases(tier, rng):
                 c2["fail"] = rng.choice([0, 1, 2, 3, 4])
                 cases.append(c2)
     for _ in range(700 if quick else 9000):
-        cases.append(_hist_case(rng))
+        c = _hist_case(rng)
+        if rng.random() < 0.25:
+            _revalue(c, rng)
+        cases.append(c)
     # ---- (3) malformed / outside-the-quantifier stream
     nm = 1 if quick else 4
     for _ in range(nm):
